@@ -61,6 +61,9 @@ var c07SymbolicValues bool
 // when Tags[47] and STags[47] are both filled)
 var c07BothForms bool
 
+// counts in half steps (sample-factor scaled counters): weights less than 1 apart must still be ordered
+var c07HalfCounts bool
+
 func c07Check(tag string, s *MultiItem, want *c07Totals) {
 	count, sum, sumsq, mins, maxs := c07RowTotals(s)
 	v.Assert("C07."+tag+".count_conserved", count == want.count)
@@ -106,6 +109,9 @@ func c07Run(n int, withValues bool) {
 			tag = keys[k]
 		}
 		cnt := v.NondetFloatInt(1, 16)
+		if c07HalfCounts {
+			cnt = v.NondetFloatInt(2, 16) / 2 // weights 1, 1.5, ... 8: sampled counters are not whole numbers
+		}
 		mv := s.MapStringTop(rng, capacity, tag, cnt)
 		if withValues {
 			// concrete value list keeps value*count and value*value*count linear in the symbolic count
@@ -170,4 +176,8 @@ func Harness_C07_values_3events_both_forms() {
 }
 func Harness_C07_values_3events()   { c07Run(3, true) }
 func Harness_C07_counters_3events() { c07Run(3, false) }
+func Harness_C07_counters_3events_half_counts() {
+	c07HalfCounts = true
+	c07Run(3, false)
+}
 func Harness_C07_values_4events()   { c07Run(4, true) }
